@@ -36,6 +36,11 @@ func registry() []*Check {
 			}
 			c.Quick = append(c.Quick, Scenario{Name: c.ID + "/api-wiring", Build: plainSmallBlocks, Pkg: "root", Test: "TestVerif_API", Params: "prop=" + c.ID + ",depth=3", Shards: 4, BudgetS: 60})
 			c.Thorough = append(c.Thorough, Scenario{Name: c.ID + "/api-wiring", Build: plainSmallBlocks, Pkg: "root", Test: "TestVerif_API", Params: "prop=" + c.ID + ",depth=5", Shards: 16, BudgetS: 600})
+			if c.ID == "C01" || c.ID == "C06" {
+				// doorkeeper whose filters were replaced (grown), wiped (too many refusals) or by-passed (LoadCache): see harness/root/api_doorkeeper_test.go
+				c.Quick = append(c.Quick, Scenario{Name: c.ID + "/api-doorkeeper", Build: plainSmallBlocks, Pkg: "root", Test: "TestVerif_APIDoorkeeper", Params: "prop=" + c.ID + ",depth=4", Shards: 4, BudgetS: 60})
+				c.Thorough = append(c.Thorough, Scenario{Name: c.ID + "/api-doorkeeper", Build: plainSmallBlocks, Pkg: "root", Test: "TestVerif_APIDoorkeeper", Params: "prop=" + c.ID + ",depth=5", Shards: 16, BudgetS: 600})
+			}
 			if c.ID != "C10" && c.ID != "C11" {
 				c.Quick = append(c.Quick, Scenario{Name: c.ID + "/api-pressure-m1", Build: plain, Pkg: "root", Test: "TestVerif_APIPressure", Params: "prop=" + c.ID + ",depth=5,max=1", Shards: 8, BudgetS: 60})
 				c.Quick = append(c.Quick, Scenario{Name: c.ID + "/api-pressure-ext", Build: plain, Pkg: "root", Test: "TestVerif_APIPressure", Params: "prop=" + c.ID + ",depth=3,max=1,ext=1", Shards: 4, BudgetS: 60})
